@@ -69,15 +69,19 @@ def merge_case(draw, max_probes=4, exclude_f13=True, max_nc=6, max_ns=25, big_te
         p['tf']['ind'] = [row[:wt] for row in p['tf']['ind']]
     # probe directory names: the order GIVEN defines probe k; it is not always the lexicographic one
     return {'probes': probes, 'f13_excluded': excluded,
-            'dir_names': draw(st.sampled_from(['asc', 'desc', 'num']))}
+            'dir_names': draw(st.sampled_from(['asc', 'desc', 'num', 'nested'])),
+            'out_is_parent': draw(st.integers(0, 3)) == 0}
 
 
 def build_probes(case, root):
     """Write every probe directory; returns the list of truths."""
     Ts = []
     for i, spec in enumerate(case['probes']):
-        d = Path(root) / rec.part_names(len(case['probes']), case.get('dir_names', 'asc'),
-                                        stem='probe')[i]
+        if case.get('dir_names') == 'nested':
+            d = Path(root) / ('imec%d' % i) / 'ks2'         # <root>/imec0/ks2, <root>/imec1/ks2, ...
+        else:
+            d = Path(root) / rec.part_names(len(case['probes']), case.get('dir_names', 'asc'),
+                                            stem='probe')[i]
         T = D.build(spec, d)
         T.tsv = {}
         for fn, present in spec.get('tsv', {}).items():
@@ -102,6 +106,14 @@ def expected_order(Ts):
     # Python's sort is stable; key = time only
     order = sorted(range(len(pairs)), key=lambda j: pairs[j][0])
     return [(pairs[j][1], pairs[j][2]) for j in order]
+
+
+def out_dir_for(case, root, name='merged'):
+    """Where the merged dataset goes: a sibling directory, or (session layout) the parent directory
+    that contains the probe folders."""
+    if case.get('out_is_parent') and name == 'merged' and case.get('dir_names') != 'nested':
+        return Path(root)
+    return Path(root) / name
 
 
 def run_merge(Ts, out_dir, must_return):
